@@ -12,7 +12,7 @@ RULE = ("Uniquely named sequences (2..25 generated sets; one case in six is tall
         "alignments), 'same' (test = reference with rows permuted and all-gap columns inserted, expected score 100) and "
         "'perturbed' (test = reference with a few residues shifted). Oracle: independent python implementation of the "
         "definition - over ordered pairs of sequences and residues, the partner-or-gap in the reference vs the test - with "
-        "|score - 100*hits/total| <= 1e-3; 0 <= score <= 100; equal score after permuting the rows of either argument. "
+        "score == float32(100.0*hits/total) exactly (the double quotient rounded once to the float that is returned); 0 <= score <= 100; equal score after permuting the rows of either argument. "
         "Non-trivial = 0 < score < 100; class identical_up_to_order_and_gap_columns.")
 ASSUMPTIONS = ["files contain at least one gap character (a gap-free file is by design not recognised as an alignment)",
                "names unique, from [A-Za-z0-9_.|-], <= 30 characters"]
@@ -125,7 +125,15 @@ def score_ref(names_r, rows_r, names_t, rows_t):
 @st.composite
 def cases(draw, tier):
     tall = draw(st.integers(0, 5)) == 0
-    if tall:
+    big = not tall and draw(st.integers(0, 11)) == 0
+    if big:
+        # enough relations for single-precision arithmetic to matter ((nseq-1) x residues beyond 2^24 / 25)
+        k0, alpha = draw(gen.alphabets())
+        n = draw(st.integers(100, 150))
+        L = draw(st.integers(60, 90))
+        seqs = gen.expand_family(draw(st.integers(0, 2 ** 32 - 1)), alpha, n, L, 0.2, 0.0, 0.0)
+        ss = {"kind": gen.expected_kind(seqs), "seqs": seqs}
+    elif tall:
         # tall alignments in which only the last (or first) few rows carry gaps: full-length sequences plus a few with deletions
         k0, alpha = draw(gen.alphabets())
         rnd = random.Random(draw(st.integers(0, 2 ** 32 - 1)))
@@ -176,6 +184,8 @@ def check(case):
     cl = ["mode=" + case["mode"], "ref=" + case["ref"]["how"], "test=" + case["test"]["how"]]
     if n > 50:
         cl.append("rows>50")
+    if n >= 100:
+        cl.append("relations>=600k")
 
     def load(slot, side, rows):
         """returns script lines that put an alignment in `slot`; rows None -> run kalign"""
@@ -239,13 +249,15 @@ def check(case):
     got = cmp_["score"]
     if want is None:
         return engine.discard("no relations")
-    if not (got == got) or abs(got - want) > 1e-3:
+    import numpy as np
+    # the score is a float: it must be the double-precision quotient rounded once to single precision
+    if not (got == got) or np.float32(got) != np.float32(want):
         return engine.violation({"what": "score %r but the definition gives %.6f (%d of %d relations)" % (got, want, hits, total),
                                  "ref": list(zip(rn, rr))[:4], "test": list(zip(tn, tr))[:4]}, classes=cl)
-    if got < -1e-6 or got > 100 + 1e-4:
+    if got < 0.0 or got > 100.0:
         return engine.violation({"what": "score %r outside 0..100" % got}, classes=cl)
     if case["mode"] == "same":
         cl.append("identical_up_to_order_and_gap_columns")
-        if abs(got - 100.0) > 1e-4:
+        if got != 100.0:
             return engine.violation({"what": "same alignment up to row order / all-gap columns scores %r" % got}, classes=cl)
     return engine.ok(0 < got < 100, cl, {"names": names[:3], "ref": rr[:2], "test": tr[:2], "score": got, "hits": hits, "total": total})
